@@ -5,10 +5,12 @@ stores it under /verif/seeded/<Cxx><a|b>/ (patch.diff, demo/, meta.json incl. wh
 import json, os, re, shutil, subprocess, sys
 pid, tag, demo = sys.argv[1], sys.argv[2], sys.argv[3]
 needs = " ".join(sys.argv[4:])
-patch = f"/tmp/seed/{pid}{tag}.patch"
+SD = os.environ.get("SEED_DIR", "/tmp/seed")
+store = os.environ.get("STORE_TAG", tag)
+patch = f"{SD}/{pid}{tag}.patch"
 out = subprocess.run(["/verif/tools/seed_eval.sh", pid, patch, demo], capture_output=True, text=True).stdout
 out = "\n".join(l for l in out.splitlines() if not l.startswith("WARNING conda"))
-open(f"/tmp/seed/{pid}{tag}.eval.txt", "w").write(out)
+open(f"{SD}/{pid}{tag}.eval.txt", "w").write(out)
 sec = re.split(r"^== ", out, flags=re.M)
 get = lambda name: next((s for s in sec if s.startswith(name)), "")
 without, base, with_, chk = get("demo WITHOUT"), get("build + baseline"), get("demo WITH the"), get("check ")
@@ -17,9 +19,9 @@ def failed(s): return bool(re.search(r"run-exit=[1-9]|^FAIL|--- FAIL|exit status
 demo_ok = (not failed(without)) and failed(with_)
 verdict = "VIOLATION" if "VIOLATION" in chk else ("OK(missed)" if re.search(r"^OK ", chk, flags=re.M) else "?")
 nofail = "no-failing-input-found" in chk
-print(f"{pid}{tag}: baseline={'pass' if base_ok else 'FAIL'} demo={'confirmed' if demo_ok else 'NOT-confirmed'} check={verdict}{' (no-failing-input-found)' if nofail else ''}")
+print(f"{pid}{store}: baseline={'pass' if base_ok else 'FAIL'} demo={'confirmed' if demo_ok else 'NOT-confirmed'} check={verdict}{' (no-failing-input-found)' if nofail else ''}")
 if base_ok and demo_ok:
-    d = f"/verif/seeded/{pid}{tag}"
+    d = f"/verif/seeded/{pid}{store}"
     shutil.rmtree(d, ignore_errors=True)
     os.makedirs(d)
     shutil.copy(patch, d + "/patch.diff")
